@@ -33,6 +33,8 @@
 //   non-trivial: a failure fired inside a LIB(...) call of a step (not while the harness builds arguments or the world).
 #include "poly_common.hh"
 #include <dlfcn.h>
+#include <sys/wait.h>
+#include <cerrno>
 #include <optional>
 #include <new>
 using namespace vf;
@@ -197,10 +199,46 @@ struct ResetGlobals {
   ~ResetGlobals() { mem::track = 0; mem::arm = 0; abandon_expensive_computations = 0; if (ww) delete ww; }
 };
 static long g_abandon_in_call = 0;
-// weaker checks (OK() of receivers / const arguments after a failure): exploration aid, C14_SOFT=1 turns them into tags
-static bool soft_mode() { static int v = -1; if (v < 0) { const char* e = std::getenv("C14_SOFT"); v = e && *e == '1'; } return v == 1; }
-static void weak_check(Ctx& c, const std::string& id, bool ok, const std::function<std::string()>& msg) {
-  if (ok) return; if (soft_mode()) { c.tag("SOFT " + id); return; } c.check(id, ok, msg);
+// Findings of the post-failure inspection.  The inspection (OK(), comparisons, repetition of a const operation) runs in a forked
+// child: an object left in a broken state may crash or hang when it is used, and that must not end the search.
+struct Finding { std::string id, cls, msg; bool weak; };
+struct Report {
+  std::vector<Finding> v; std::string cls;
+  void check(const std::string& id, bool ok, const std::function<std::string()>& m) { if (!ok) v.push_back(Finding{ id, cls, m(), false }); }
+  void weak(const std::string& id, bool ok, const std::function<std::string()>& m) { if (!ok) v.push_back(Finding{ id, cls, m(), true }); }
+};
+static int soft_mode() { static int v = -1; if (v < 0) { const char* e = std::getenv("C14_SOFT"); v = e ? std::atoi(e) : 0; } return v; }   // exploration aid: weak checks become tags
+template <class F> static void inspect_in_child(Report& rep, const std::string& crash_id, const std::string& where, F f) {
+  int fd[2]; if (::pipe(fd) != 0) throw vf::Inconclusive("pipe() failed");
+  std::fflush(stdout); std::fflush(stderr);
+  pid_t pid = ::fork();
+  if (pid < 0) { ::close(fd[0]); ::close(fd[1]); throw vf::Inconclusive("fork() failed"); }
+  if (pid == 0) {
+    for (int sg : { SIGSEGV, SIGABRT, SIGFPE, SIGBUS, SIGILL }) std::signal(sg, SIG_DFL);
+    ::close(fd[0]); int dn = ::open("/dev/null", O_WRONLY); if (dn >= 0) { ::dup2(dn, 2); ::dup2(dn, 1); }
+    ::alarm(3);
+    Report r;
+    try { f(r); }
+    catch (std::exception& e) { r.v.push_back(Finding{ crash_id, r.cls, std::string("using the objects after the failure throws ") + typeid(e).name() + ": " + e.what(), false }); }
+    catch (...) { r.v.push_back(Finding{ crash_id, r.cls, "using the objects after the failure throws a non-standard exception", false }); }
+    std::string out; for (Finding& x : r.v) { for (char& ch : x.msg) if (ch == '\n' || ch == '\t') ch = ' '; out += x.id + "\t" + x.cls + "\t" + (x.weak ? "w" : "s") + "\t" + x.msg + "\n"; }
+    out += "END\t" + r.cls + "\n";
+    size_t off = 0; while (off < out.size()) { ssize_t w = ::write(fd[1], out.data() + off, out.size() - off); if (w <= 0) break; off += (size_t) w; }
+    ::_exit(0);
+  }
+  ::close(fd[1]); std::string in; char buf[4096]; for (;;) { ssize_t n = ::read(fd[0], buf, sizeof buf); if (n <= 0) break; in.append(buf, (size_t) n); } ::close(fd[0]);
+  int status = 0; while (::waitpid(pid, &status, 0) < 0 && errno == EINTR) { }
+  bool complete = false; std::istringstream is(in); std::string line;
+  while (std::getline(is, line)) {
+    size_t a = line.find('\t'); if (a == std::string::npos) continue; std::string id = line.substr(0, a);
+    if (id == "END") { complete = true; rep.cls = line.substr(a + 1); continue; }
+    size_t b = line.find('\t', a + 1), c2 = b == std::string::npos ? b : line.find('\t', b + 1); if (c2 == std::string::npos) continue;
+    rep.v.push_back(Finding{ id, line.substr(a + 1, b - a - 1), line.substr(c2 + 1), line[b + 1] == 'w' });
+  }
+  if (!complete || !(WIFEXITED(status) && WEXITSTATUS(status) == 0)) {
+    std::string how = WIFSIGNALED(status) ? (WTERMSIG(status) == SIGALRM ? std::string("does not terminate (3 s)") : "crashes with signal " + std::to_string(WTERMSIG(status))) : "ends abnormally (exit status " + std::to_string(WIFEXITED(status) ? WEXITSTATUS(status) : -1) + ")";
+    rep.v.push_back(Finding{ crash_id, rep.cls, "using the objects left by the failure (" + where + ": OK(), comparison with the pre-call value, repetition of a const operation) " + how, false });
+  }
 }
 struct CountingCheckpoint : public Throwable {
   mutable long seen; long k;
@@ -221,6 +259,7 @@ static std::vector<long> sample_ks(Tape& t, long N, long all_upto, long max_pos)
 }
 static const char* mode_name(int m) { return m == 1 ? "operator new" : m == 2 ? "operator new + GMP" : m == 3 ? "k-th maybe_abandon() checkpoint" : "weight threshold"; }
 
+static const char* b_known(const std::string& fam, const Finding& f);
 template <class W> struct Driver {
   typedef typename W::Plain Plain;
   Ctx& c; const Plain& P; std::string fam; int nsteps;
@@ -231,6 +270,14 @@ template <class W> struct Driver {
     probes(0), fired_n(0), nt_n(0), unfired_n(0), absorbed_n(0), build_n(0), cache_growth_n(0) {}
   ~Driver() { for (W* s : snaps) delete s; delete fin; }
   std::string id(const char* chk) const { return std::string(chk) + "." + fam; }
+  std::string last_cls;      // step class of the last failing stage ("" while building)
+  // one finding of part B: known-finding classes are excluded, exploration mode turns it into a tag, otherwise the check fails
+  void finding(const Finding& f) {
+    if (const char* kid = b_known(fam, f)) if (kf(kid)) { c.excluded(kid); return; }
+    if ((f.weak && soft_mode() >= 1) || soft_mode() >= 2) { c.tag("SOFT " + f.id + " | " + f.cls); return; }
+    c.check(f.id, false, [&] { return f.msg; });
+  }
+  void verdict(const char* chk, bool ok, const std::function<std::string()>& m) { if (!ok) finding(Finding{ id(chk), last_cls, m(), false }); }
 
   // clean run; record: keep snapshots / observations / final world; compare: against the recorded ones.  Returns the live-allocation delta.
   long clean(bool record, bool compare, const char* which) {
@@ -289,28 +336,33 @@ template <class W> struct Driver {
         bool in_call = mode <= 2 ? mem::fired_in_call : g_abandon_in_call > 0;
         int expect = mode <= 2 ? 1 : 2;
         auto where = [&] { return std::string(mode_name(mode)) + ", k=" + std::to_string(k) + (stage < 0 ? ", while building the objects" : ", in step " + std::to_string(stage)) + (mode <= 2 ? (mem::fired_gmp ? " (GMP allocation)" : " (operator new)") : ""); };
-        c.check(id("b.exception_type"), exc == 0 || (exc == expect && fired), [&] { return "injected failure (" + where() + "): " + (exc == 1 ? std::string("std::bad_alloc although nothing was injected") : exc == 2 ? std::string("unexpected abandonment") : "the call site received " + what); });
+        last_cls = stage < 0 ? "building" : ow ? ow->step_name(stage < nsteps ? stage : nsteps - 1) : "building"; verdict("b.exception_type", exc == 0 || (exc == expect && fired), [&] { return "injected failure (" + where() + "): " + (exc == 1 ? std::string("std::bad_alloc although nothing was injected") : exc == 2 ? std::string("unexpected abandonment") : "the call site received " + what); });
         ++probes;
         if (exc == 0) {
           bool ok = ow->equal(*fin); for (int i = 0; i < nsteps; ++i) if (o2[i] != obs[i]) ok = false;
           if (fired) { ++absorbed_n; c.tag("B failure absorbed by the library"); } else ++unfired_n;
-          c.check(id("b.unfired_same"), ok, [&] { return std::string(fired ? "the failure was absorbed" : "nothing fired") + " (" + where() + ") but the results differ from the clean run"; });
+          verdict("b.unfired_same", ok, [&] { return std::string(fired ? "the failure was absorbed" : "nothing fired") + " (" + where() + ") but the results differ from the clean run"; });
         }
         else if (stage < 0) ++build_n;
         else {
           ++fired_n; if (in_call) { ++nt_n; c.nt(); }
           std::string wh = where();
-          ow->after_failure(c, stage, *snaps[stage], fam, wh);
-          if (ow->is_const_step(stage)) {
-            Obs tmp; std::string threw;
-            try { ow->step(stage, tmp); } catch (std::exception& e) { threw = std::string(typeid(e).name()) + ": " + e.what(); } catch (...) { threw = "non-standard exception"; }
-            c.check(id("b.retry"), threw.empty() && tmp == obs[stage], [&] { return "after the failure (" + wh + ") the same const operation repeated on the same objects " + (threw.empty() ? "answers [" + join(tmp) + "], the clean run answered [" + join(obs[stage]) + "]" : "throws " + threw); });
-          }
+          Report rep;
+          inspect_in_child(rep, id("b.crash_after_failure"), wh, [&](Report& r) {
+            ow->after_failure(r, stage, *snaps[stage], fam, wh);
+            if (ow->is_const_step(stage)) {
+              Obs tmp; std::string threw;
+              try { ow->step(stage, tmp); } catch (std::exception& e) { threw = std::string(typeid(e).name()) + ": " + e.what(); } catch (...) { threw = "non-standard exception"; }
+              r.check(id("b.retry"), threw.empty() && tmp == obs[stage], [&] { return "after the failure (" + wh + ") the same const operation repeated on the same objects " + (threw.empty() ? "answers [" + join(tmp) + "], the clean run answered [" + join(obs[stage]) + "]" : "throws " + threw); });
+            }
+          });
+          last_cls = rep.cls;
+          for (const Finding& f : rep.v) finding(f);
           std::string threw;
           try { ow->assign_from(*snaps[stage]); for (int i = stage; i < nsteps; ++i) { o2[i].clear(); ow->step(i, o2[i]); } }
           catch (std::exception& e) { threw = std::string(typeid(e).name()) + ": " + e.what(); } catch (...) { threw = "non-standard exception"; }
           bool ok = threw.empty(); if (ok) { for (int i = stage; i < nsteps; ++i) if (o2[i] != obs[i]) ok = false; if (!ow->equal(*fin)) ok = false; }
-          c.check(id("b.reuse"), ok, [&] { std::string m = "after the failure (" + wh + ") every object was assigned its pre-step value and the rest of the scenario was re-run: ";
+          verdict("b.reuse", ok, [&] { std::string m = "after the failure (" + wh + ") every object was assigned its pre-step value and the rest of the scenario was re-run: ";
             if (!threw.empty()) return m + "it throws " + threw; for (int i = stage; i < nsteps; ++i) if (o2[i] != obs[i]) m += "step " + std::to_string(i) + " answers [" + join(o2[i]) + "] instead of [" + join(obs[i]) + "]; "; return m + "(final objects compared too)"; });
         }
       }
@@ -321,7 +373,7 @@ template <class W> struct Driver {
     long d1 = fault(mode, k, true);
     if (d1 > 0) {
       long d2 = fault(mode, k, false); long d3 = d2 > 0 ? fault(mode, k, false) : 0;
-      if (d2 > 0 && d3 > 0) c.check(id("b.leak"), false, [&] { return std::string("fault ") + mode_name(mode) + " k=" + std::to_string(k) + ": live library allocations grew by " + std::to_string(d1) + ", " + std::to_string(d2) + ", " + std::to_string(d3) + " blocks on three consecutive identical runs (everything had been destroyed)"; });
+      if (d2 > 0 && d3 > 0) verdict("b.leak", false, [&] { return std::string("fault ") + mode_name(mode) + " k=" + std::to_string(k) + ": live library allocations grew by " + std::to_string(d1) + ", " + std::to_string(d2) + ", " + std::to_string(d3) + " blocks on three consecutive identical runs (everything had been destroyed)"; });
       else ++cache_growth_n;
     }
   }
@@ -425,17 +477,18 @@ template <class D> struct DomWorld {
     }
   }
   bool is_const_step(int i) const { int k = P.steps[i].kind; return k == 8 || k == 10 || k == 14; }
+  std::string step_name(int i) const { return dstep_names[P.steps[i].kind]; }
   void assign_from(const DomWorld& w) { for (int j = 0; j < 3; ++j) o[j] = w.o[j]; }
   bool equal(const DomWorld& w) const { for (int j = 0; j < 3; ++j) if (!same(o[j], w.o[j])) return false; return true; }
-  void after_failure(Ctx& c, int i, const DomWorld& snap, const std::string& fam, const std::string& where) {
-    const DStep& st = P.steps[i]; bool cst = is_const_step(i);
+  void after_failure(Report& c, int i, const DomWorld& snap, const std::string& fam, const std::string& where) {
+    const DStep& st = P.steps[i]; bool cst = is_const_step(i); c.cls = dstep_names[st.kind];
     for (int j = 0; j < 3; ++j) {
       bool recv = !cst && j == st.r, arg = !recv && (j == st.r || j == st.s);
       std::string what = std::string(dstep_names[st.kind]) + " (" + where + "), object o" + std::to_string(j);
-      if (recv) weak_check(c, "b.receiver_ok." + fam, o[j].OK(), [&] { return "the receiver fails OK() after a failed " + what; });
+      if (recv) c.weak("b.receiver_ok." + fam, o[j].OK(), [&] { return "the receiver fails OK() after a failed " + what; });
       else {
         { auto m = [&] { return std::string(arg ? "a const argument" : "an object not involved") + " fails OK() after a failed " + what; };
-          if (arg) weak_check(c, "b.arg_ok." + fam, o[j].OK(), m); else c.check("b.bystander." + fam, o[j].OK(), m); }
+          if (arg) c.weak("b.arg_ok." + fam, o[j].OK(), m); else c.check("b.bystander." + fam, o[j].OK(), m); }
         c.check(std::string(arg ? "b.arg_value." : "b.bystander.") + fam, same(o[j], snap.o[j]), [&] { return std::string(arg ? "a const argument" : "an object not involved") + " changed its value in a failed " + what; });
       }
     }
@@ -561,16 +614,17 @@ struct MipWorld {
     if (!P.ivars.empty()) { Variables_Set vs; for (long j : P.ivars) vs.insert(Variable(j)); LIB(p.add_to_integer_space_dimensions(vs)); }
   }
   bool is_const_step(int i) const { int k = P.steps[i].kind; return k == 4 || k == 5; }
+  std::string step_name(int i) const { return mstep_names[P.steps[i].kind]; }
   void assign_from(const MipWorld& w) { p = w.p; q = w.q; }
   bool equal(const MipWorld& w) const { return mip_value(p) == mip_value(w.p) && mip_value(q) == mip_value(w.q); }
-  void after_failure(Ctx& c, int i, const MipWorld& snap, const std::string& fam, const std::string& where) {
-    const MStep& st = P.steps[i]; std::string what = std::string(mstep_names[st.kind]) + " (" + where + ")";
-    if (st.kind == 6) { weak_check(c, "b.receiver_ok." + fam, p.OK() && q.OK(), [&] { return "source or target fails OK() after a failed " + what; }); return; }
+  void after_failure(Report& c, int i, const MipWorld& snap, const std::string& fam, const std::string& where) {
+    const MStep& st = P.steps[i]; c.cls = mstep_names[st.kind]; std::string what = std::string(mstep_names[st.kind]) + " (" + where + ")";
+    if (st.kind == 6) { c.weak("b.receiver_ok." + fam, p.OK() && q.OK(), [&] { return "source or target fails OK() after a failed " + what; }); return; }
     if (is_const_step(i)) {
-      weak_check(c, "b.arg_ok." + fam, p.OK(), [&] { return "the problem fails OK() after a failed const " + what; });
+      c.weak("b.arg_ok." + fam, p.OK(), [&] { return "the problem fails OK() after a failed const " + what; });
       c.check("b.arg_value." + fam, mip_value(p) == mip_value(snap.p), [&] { return "the problem changed in a failed const " + what + ":\n before " + mip_value(snap.p) + "\n after  " + mip_value(p); });
     }
-    else weak_check(c, "b.receiver_ok." + fam, p.OK(), [&] { return "the receiver fails OK() after a failed " + what; });
+    else c.weak("b.receiver_ok." + fam, p.OK(), [&] { return "the receiver fails OK() after a failed " + what; });
     c.check("b.bystander." + fam, q.OK() && mip_value(q) == mip_value(snap.q), [&] { return "a problem not involved changed or fails OK() after a failed " + what; });
   }
   void step(int i, Obs& obs) {
@@ -630,16 +684,17 @@ struct PipWorld {
     for (const RCon& r : P.init) { Constraint c = to_ppl(r); LIB(p.add_constraint(c)); }
   }
   bool is_const_step(int i) const { int k = P.steps[i].kind; return k == 2 || k == 3 || k == 7; }
+  std::string step_name(int i) const { return pstep_names[P.steps[i].kind]; }
   void assign_from(const PipWorld& w) { p = w.p; q = w.q; }
   bool equal(const PipWorld& w) const { return pip_value(p) == pip_value(w.p) && pip_value(q) == pip_value(w.q); }
-  void after_failure(Ctx& c, int i, const PipWorld& snap, const std::string& fam, const std::string& where) {
-    const PStep& st = P.steps[i]; std::string what = std::string(pstep_names[st.kind]) + " (" + where + ")";
-    if (st.kind == 4) { weak_check(c, "b.receiver_ok." + fam, p.OK() && q.OK(), [&] { return "source or target fails OK() after a failed " + what; }); return; }
+  void after_failure(Report& c, int i, const PipWorld& snap, const std::string& fam, const std::string& where) {
+    const PStep& st = P.steps[i]; c.cls = pstep_names[st.kind]; std::string what = std::string(pstep_names[st.kind]) + " (" + where + ")";
+    if (st.kind == 4) { c.weak("b.receiver_ok." + fam, p.OK() && q.OK(), [&] { return "source or target fails OK() after a failed " + what; }); return; }
     if (is_const_step(i)) {
-      weak_check(c, "b.arg_ok." + fam, p.OK(), [&] { return "the problem fails OK() after a failed const " + what; });
+      c.weak("b.arg_ok." + fam, p.OK(), [&] { return "the problem fails OK() after a failed const " + what; });
       c.check("b.arg_value." + fam, pip_value(p) == pip_value(snap.p), [&] { return "the problem changed in a failed const " + what + ":\n before " + pip_value(snap.p) + "\n after  " + pip_value(p); });
     }
-    else weak_check(c, "b.receiver_ok." + fam, p.OK(), [&] { return "the receiver fails OK() after a failed " + what; });
+    else c.weak("b.receiver_ok." + fam, p.OK(), [&] { return "the receiver fails OK() after a failed " + what; });
     c.check("b.bystander." + fam, q.OK() && pip_value(q) == pip_value(snap.q), [&] { return "a problem not involved changed or fails OK() after a failed " + what; });
   }
   static void tree(Obs& obs, const char* what, const PIP_Tree_Node* r) { mem::Pause pz; std::ostringstream s; if (r == 0) s << "_|_"; else r->print(s); std::string x = s.str(); for (char& ch : x) if (ch == '\n') ch = ' '; obs.push_back(std::string(what) + "=" + x); }
@@ -684,6 +739,7 @@ struct LowWorld {
     for (int i = 0; i < 3; ++i) { const LE& le = P.init[i]; for (size_t j = 0; j < le.a.size(); ++j) if (le.a[j] != 0) { Coefficient cf(le.a[j]); LIB(add_mul_assign(e[i], cf, Variable(j))); } Coefficient b(le.b); LIB(e[i] += b); }
   }
   bool is_const_step(int i) const { return P.steps[i].kind == 9; }
+  std::string step_name(int i) const { return lstep_names[P.steps[i].kind]; }
   void assign_from(const LowWorld& w) { for (int i = 0; i < 3; ++i) e[i] = w.e[i]; cs = w.cs; cgs = w.cgs; gs = w.gs; row = w.row; }
   bool obj_same(int j, const LowWorld& w) const {
     if (j < 3) return e[j].space_dimension() == w.e[j].space_dimension() && e[j].is_equal_to(w.e[j]);
@@ -692,18 +748,18 @@ struct LowWorld {
   }
   bool obj_ok(int j) const { return j < 3 ? e[j].OK() : j == 3 ? cs.OK() : j == 4 ? cgs.OK() : j == 5 ? gs.OK() : row.OK(); }
   bool equal(const LowWorld& w) const { for (int j = 0; j < 7; ++j) if (!obj_same(j, w)) return false; return true; }
-  void after_failure(Ctx& c, int i, const LowWorld& snap, const std::string& fam, const std::string& where) {
-    const LStep& st = P.steps[i]; int recv = -1, arg = -1;
+  void after_failure(Report& c, int i, const LowWorld& snap, const std::string& fam, const std::string& where) {
+    const LStep& st = P.steps[i]; int recv = -1, arg = -1; c.cls = lstep_names[st.kind];
     switch (st.kind) { case 0: case 2: case 8: recv = st.r; break; case 1: recv = st.r; arg = st.s; break; case 3: recv = 3; arg = st.s; break; case 4: recv = 4; arg = st.s; break; case 5: recv = 5; arg = st.s; break;
       case 6: recv = st.sub == 0 ? st.r : st.sub == 1 ? 3 : st.sub == 2 ? 4 : 5; arg = st.sub == 0 ? st.s : -1; break; case 7: recv = 6; break; default: break; }
     if (arg == recv) arg = -1;
     static const char* const on[] = { "e0", "e1", "e2", "the constraint system", "the congruence system", "the generator system", "the sparse row" };
     for (int j = 0; j < 7; ++j) {
       std::string what = std::string(lstep_names[st.kind]) + " (" + where + "), object " + on[j];
-      if (j == recv) weak_check(c, "b.receiver_ok." + fam, obj_ok(j), [&] { return "the receiver fails OK() after a failed " + what; });
+      if (j == recv) c.weak("b.receiver_ok." + fam, obj_ok(j), [&] { return "the receiver fails OK() after a failed " + what; });
       else { bool a = j == arg || (st.kind == 9 && (j == st.r || j == st.s));
         { auto m = [&] { return std::string(a ? "a const argument" : "an object not involved") + " fails OK() after a failed " + what; };
-          if (a) weak_check(c, "b.arg_ok." + fam, obj_ok(j), m); else c.check("b.bystander." + fam, obj_ok(j), m); }
+          if (a) c.weak("b.arg_ok." + fam, obj_ok(j), m); else c.check("b.bystander." + fam, obj_ok(j), m); }
         c.check(std::string(a ? "b.arg_value." : "b.bystander.") + fam, obj_same(j, snap), [&] { return std::string(a ? "a const argument" : "an object not involved") + " changed in a failed " + what; }); }
     }
   }
@@ -752,6 +808,27 @@ template <class D> static bool model_same(const D& a, const D& b, size_t n) {
   if constexpr (K == K_PPS) { (void) a; (void) b; (void) n; return true; }
   else if constexpr (K == K_GRID) { (void) n; return dump_of(a.minimized_congruences()) == dump_of(b.minimized_congruences()); }
   else { Sys sa = to_ref(a.constraints(), n), sb = to_ref(b.constraints(), n); return ref::equal(sa, sb); }
+}
+
+// Known-finding classes of part A (the exact class is skipped when the id is active; otherwise the checks fail)
+static bool starts(const std::string& s, const char* p) { return s.compare(0, std::strlen(p), p) == 0; }
+static const char* a_known(int K, const std::string& op, bool x_empty, bool x_no_disjunct, bool z_empty) {
+  // KF-C14-1: BD_Shape / Octagonal_Shape / Box::expand_space_dimension(var, m) report the overflow of max_space_dimension() with
+  //           std::invalid_argument, the documented exception is std::length_error
+  if (op == "expand_space_dimension.overflow" && (K == K_BDS || K == K_OS || K == K_BOX)) return "KF-C14-1";
+  // KF-C14-2: BD_Shape / Octagonal_Shape / Box::add_constraints(cs) add the constraints one by one: those preceding the rejected one stay
+  if (op == "add_constraints.not_representable" && (K == K_BDS || K == K_OS || K == K_BOX)) return "KF-C14-2";
+  // KF-C14-3: Pointset_Powerset delegates argument checking to the operations of its disjuncts: nothing is checked when there is
+  //           no disjunct, and several operations never check
+  if (K == K_PPS && (x_no_disjunct || (z_empty && (op == "time_elapse_assign.dim" || op == "upper_bound_assign.dim" || op == "upper_bound_assign_if_exact.dim" || op == "is_disjoint_from.dim")) || op == "difference_assign.dim" || op == "remove_higher_space_dimensions.dim" || op == "contains.dim" || op == "strictly_contains.dim"
+                     || op == "intersection_assign.dim" || op == "geometrically_covers.dim" || op == "geometrically_equals.dim")) return "KF-C14-3";
+  // KF-C14-4: Partially_Reduced_Product does not check its own max_space_dimension(): the components run into std::bad_alloc
+  if (K == K_PROD && (op == "add_space_dimensions_and_embed.overflow" || op == "add_space_dimensions_and_project.overflow" || op == "expand_space_dimension.overflow")) return "KF-C14-4";
+  // KF-C14-5: Box::CC76_widening_assign / widening_assign do not check the dimension of the argument
+  if (K == K_BOX && (op == "CC76_widening_assign.dim" || op == "widening_assign.dim")) return "KF-C14-5";
+  // KF-C14-6: argument checks skipped when the receiver is (marked) empty
+  if (x_empty && ((K == K_GRID && (op == "add_constraint.inequality" || op == "add_constraints.inequality")) || (K == K_PROD && (starts(op, "maximize") || starts(op, "minimize"))))) return "KF-C14-6";
+  return 0;
 }
 template <class D> static D gen_obj(Ctx& c, size_t n, const std::vector<long>& wit, const char* nm) {
   constexpr int K = Tr<D>::kind; Tape& t = c.t;
@@ -961,8 +1038,12 @@ template <class D> static void part_a_dom(Ctx& c) {
   c.log << "  rejected call: " << r.op << "   [e = " << ple.str() << ", big = " << pbig.str() << ", v0 = x" << v0.id() << ", relsym " << (int) rel << "]\n";
   c.tag(std::string("A ") + dn + "." + r.op);
   std::string sfx = std::string(".") + dn + "." + r.op;
+  // an object that fails OK() after its (valid) construction history is a defect outside this property
+  if (!(x.OK() && y.OK() && z.OK())) { c.tag("A object fails OK() before the rejected call"); throw vf::Inconclusive("an object fails OK() before the rejected call (valid history)"); }
   D x0(x), y0(y), z0(z);
   bool nontriv = !x0.is_empty() && !x0.is_universe();
+  { bool nodis = false; if constexpr (K == K_PPS) nodis = x0.is_empty();
+    if (const char* id = a_known(K, r.op, x0.is_empty(), nodis, z0.is_empty())) if (kf(id)) { c.excluded(id); c.log << "  (class of known finding " << id << ": call not made)\n"; return; } }
   std::string what; int got = thrown_by(r.call, what);
   c.check("a.threw" + sfx, got != X_NONE, [&] { return std::string(dn) + "::" + r.op + ": the call violating the precondition returned normally (documented: " + xname(r.expect) + ")"; });
   if (got == X_NONE) return;   // (muted in survey mode) the call went through: nothing else to compare
@@ -972,7 +1053,7 @@ template <class D> static void part_a_dom(Ctx& c) {
   c.check("a.model" + sfx, model_same(x, x0, n) && model_same(z, z0, n + 1), [&] { return std::string(dn) + "::" + r.op + ": constraints()/congruences() of receiver or argument denote another set after the rejected call"; });
   { RCon fc = gen_rcon(t, n, wit, K == K_PPS ? K_C : K); std::vector<RCon> one(1, fc); LE fe = gen_le(t, n, false);
     constrain(x, one); constrain(x0, one); x.affine_image(v0, fe.ppl()); x0.affine_image(v0, fe.ppl()); x.upper_bound_assign(y); x0.upper_bound_assign(y0);
-    c.check("a.followup" + sfx, same(x, x0) && x.OK(), [&] { return std::string(dn) + "::" + r.op + ": after the rejected call, adding " + str_k(fc, K) + ", x" + std::to_string(v0.id()) + " := " + fe.str() + " and joining y gives " + (same(x, x0) ? "an object failing OK()" : "another result than on the pre-call copy") + ":\n  object " + show(x) + "\n  copy   " + show(x0) + "\n  y " + show(y) + "\n  y0 " + show(y0); }); }
+    c.check("a.followup" + sfx, same(x, x0), [&] { return std::string(dn) + "::" + r.op + ": after the rejected call, adding " + str_k(fc, K) + ", x" + std::to_string(v0.id()) + " := " + fe.str() + " and joining y gives another result than on the pre-call copy:\n  object " + show(x) + "\n  copy   " + show(x0) + "\n  y " + show(y) + "\n  y0 " + show(y0); }); }
   if (nontriv) c.nt();
 }
 
@@ -1125,6 +1206,12 @@ static void part_a(Ctx& c) {
   case 9: part_a_pip(c); break;
   default: part_a_systems(c); break;
   }
+}
+
+// ------------------------------------------------------------------ known-finding classes of part B
+static const char* b_known(const std::string& fam, const Finding& f) {
+  (void) fam; (void) f;
+  return 0;
 }
 
 // ------------------------------------------------------------------ case dispatch
